@@ -133,7 +133,9 @@ func c06(w *World) {
 		body := LogonFields(k.hb, k.method, k.user, k.pass)
 		switch k.damage {
 		case "hb-text":
-			body[1] = F(TagHeartBtInt, "1x")
+			txt, kind := NonNumeric(w.W, limits[0])
+			body[1] = F(TagHeartBtInt, txt)
+			w.Probe("hb_text_" + kind)
 		case "no-method":
 			body = body[1:]
 		}
